@@ -15,6 +15,19 @@ class Problem:
     """numeric view of an OptimProblem (LP/MIP in EAO's conventions: maximise -c.x)"""
 
     def __init__(self, op):
+        if hasattr(op, 'ops'):            # SplitOptimProblem: independent interval problems, variables concatenated
+            parts = [Problem(o) for o in op.ops]
+            self.c = np.concatenate([p.c for p in parts])
+            self.l = np.concatenate([p.l for p in parts])
+            self.u = np.concatenate([p.u for p in parts])
+            self.n = len(self.c)
+            self.A = sp.block_diag([p.A for p in parts], format='csr') if parts else sp.csr_matrix((0, 0))
+            self.b = np.concatenate([p.b for p in parts])
+            self.ct = ''.join(p.ct for p in parts)
+            self.integrality = np.concatenate([p.integrality for p in parts])
+            self.lo = np.concatenate([p.lo for p in parts])
+            self.hi = np.concatenate([p.hi for p in parts])
+            return
         self.c = np.asarray(op.c, float)
         self.l = np.asarray(op.l, float)
         self.u = np.asarray(op.u, float)
